@@ -195,7 +195,11 @@ func (c *Ctx) lowerBound(in ssa.Instruction, v ssa.Value, d int) (int64, bool) {
 					good = false
 					continue
 				}
-				if k, isC := constInt(bo.Y); !isC || k < 0 {
+				if k, isC := constInt(bo.Y); isC {
+					if k < 0 {
+						good = false
+					}
+				} else if l, ok := c.lowerBound(pred.Instrs[len(pred.Instrs)-1], bo.Y, d+1); !ok || l < 0 {
 					good = false
 				}
 				continue
@@ -266,6 +270,21 @@ func (c *Ctx) lowerBound(in ssa.Instruction, v ssa.Value, d int) (int64, bool) {
 		}
 	case *ssa.Parameter:
 		f := x.Parent()
+		// an index parameter that is known not to be zero: indexes are handed
+		// around non-negative (the callers' loops and accessors), so it is >= 1
+		if !has || best < 1 {
+			for _, g0 := range guardsAt(in) {
+				for _, g := range expandGuardDeep(g0) {
+					bo, ok := g.Cond.(*ssa.BinOp)
+					if !ok || !sameQuantity(bo.X, v) {
+						continue
+					}
+					if k, isC := constInt(stripConv(bo.Y)); isC && k == 0 && ((bo.Op == token.NEQ && g.Truth) || (bo.Op == token.EQL && !g.Truth)) {
+						take(1)
+					}
+				}
+			}
+		}
 		if isNewHelper(f) && f.Parent() == nil {
 			idx := paramIndex(f, x)
 			sites := c.P.callSitesOf(f)
@@ -356,6 +375,102 @@ func nonNegativeValue(v ssa.Value) bool {
 	return false
 }
 
+// indexUsesParam: an index operand of `in` is computed from a parameter of f.
+func indexUsesParam(in ssa.Instruction, f *ssa.Function) bool {
+	var uses func(v ssa.Value, d int) bool
+	uses = func(v ssa.Value, d int) bool {
+		if d > 6 || v == nil {
+			return false
+		}
+		switch x := stripConv(v).(type) {
+		case *ssa.Parameter:
+			return x.Parent() == f
+		case *ssa.BinOp:
+			return uses(x.X, d+1) || uses(x.Y, d+1)
+		}
+		return false
+	}
+	switch x := in.(type) {
+	case *ssa.IndexAddr:
+		return uses(x.Index, 0)
+	case *ssa.Index:
+		return uses(x.Index, 0)
+	case *ssa.Slice:
+		return uses(x.Low, 0) || uses(x.High, 0)
+	case *ssa.Call:
+		for _, a := range x.Call.Args {
+			if uses(a, 0) {
+				return true
+			}
+		}
+	}
+	return false
+}
+
+// lenOfLocalList: v is len(s) for a slice s that the function builds itself
+// (a phi of appends / make / nil, not rooted in a parameter, field or call).
+func lenOfLocalList(v ssa.Value) bool {
+	call, ok := stripConv(v).(*ssa.Call)
+	if !ok {
+		return false
+	}
+	b, ok := call.Call.Value.(*ssa.Builtin)
+	if !ok || b.Name() != "len" {
+		return false
+	}
+	seen := map[ssa.Value]bool{}
+	var local func(s ssa.Value, d int) bool
+	local = func(s ssa.Value, d int) bool {
+		if d > 8 || s == nil {
+			return false
+		}
+		if seen[s] {
+			return true
+		}
+		seen[s] = true
+		switch x := s.(type) {
+		case *ssa.Const:
+			return x.Value == nil
+		case *ssa.MakeSlice:
+			return true
+		case *ssa.Phi:
+			for _, e := range x.Edges {
+				if !local(e, d+1) {
+					return false
+				}
+			}
+			return true
+		case *ssa.Slice:
+			if _, isAlloc := x.X.(*ssa.Alloc); isAlloc {
+				return true
+			}
+			return local(x.X, d+1)
+		case *ssa.Call:
+			if bi, ok := x.Call.Value.(*ssa.Builtin); ok && bi.Name() == "append" {
+				return local(x.Call.Args[0], d+1)
+			}
+		case *ssa.UnOp:
+			if x.Op == token.MUL {
+				if al, ok := x.X.(*ssa.Alloc); ok {
+					// a local variable: every value stored into it is local
+					okAll, n := true, 0
+					for _, r := range *al.Referrers() {
+						if st, isSt := r.(*ssa.Store); isSt && st.Addr == ssa.Value(al) {
+							n++
+							if !local(st.Val, d+1) {
+								okAll = false
+							}
+						}
+					}
+					return okAll && n > 0
+				}
+			}
+		}
+		return false
+	}
+	return local(call.Call.Args[0], 0)
+}
+
 func dumpMinusOne(c *Ctx) {
 	var lines []string
 	for _, f := range c.P.Funcs {
@@ -394,7 +509,6 @@ var minusOneReviewed = map[string]string{
 	"geom.(linearInterpolator).interpolate":      "newLinearInterpolator refuses an empty sequence, so Length() >= 1; idx-1 is used where idx equals that length",
 	"geom.buildRingSequence":                     "appendAllPoints adds at least two floats for each point of a sequence that has at least one point (the sequences are DCEL edges with two or more points)",
 	"geom.(GeoJSONFeature).MarshalJSON":          "json.Marshal of a struct produced an object, which ends with '}'",
-	"geom.getLine":                               "i == 0 returns before; every caller passes an index in [0, Length())",
 	"rtree.(*entriesQueue).Pop":                  "container/heap calls Pop only on a non-empty queue (heap.Pop swaps the root to the end first)",
 }
 
@@ -417,6 +531,10 @@ func runC20MinusOne(c *Ctx) {
 			}
 			l, has := c.lowerBound(s.in, s.x, 0)
 			switch {
+			case !(has && l >= s.k) && f.Parent() != nil && indexUsesParam(s.in, f):
+				c.Triv(s.in.Pos(), fn, construct, "the index is computed from a parameter of this function literal: which values it receives is decided by the code that calls it, not judged here")
+			case !(has && l >= s.k) && lenOfLocalList(s.x):
+				c.Triv(s.in.Pos(), fn, construct, "the length of a list this function builds itself (append in a loop): how many elements it holds at this point is a loop invariant, not judged here")
 			case has && l >= s.k:
 				c.OK(s.in.Pos(), fn, construct, fmt.Sprintf("the value is at least %d where the index is evaluated", l))
 			case minusOneReviewed[FuncName(rootFunc(f))] != "":
@@ -616,4 +734,910 @@ func runC18CoordEq(c *Ctx) {
 		})
 	}
 	c.Triv(token.NoPos, "-", "summary", fmt.Sprintf("%d whole-value comparisons of Coordinates found in the repository", n))
+}
+
+// ---------------------------------------------------------------------------
+// C17.filterbreak: a loop that builds a list is not cut short
+// ---------------------------------------------------------------------------
+
+type filterLoop struct {
+	f      *ssa.Function
+	h      *ssa.BasicBlock
+	breaks []loopExit
+}
+
+// filterLoops: counting/range loops over members whose body appends to a list
+// (a local that lives on after the loop) and that can be left from the body
+// otherwise than by a return or panic.
+func filterLoops(f *ssa.Function) []filterLoop {
+	var out []filterLoop
+	for _, h := range f.Blocks {
+		loop := naturalLoop(h)
+		if loop == nil {
+			continue
+		}
+		// appends in the body whose result is carried round the loop (phi at the header) or stored
+		builds := false
+		for b := range loop {
+			for _, in := range b.Instrs {
+				call, ok := in.(*ssa.Call)
+				if !ok {
+					continue
+				}
+				if bi, ok := call.Call.Value.(*ssa.Builtin); !ok || bi.Name() != "append" {
+					continue
+				}
+				var follow func(v ssa.Value, d int)
+				follow = func(v ssa.Value, d int) {
+					if d > 3 || v.Referrers() == nil {
+						return
+					}
+					for _, r := range *v.Referrers() {
+						if phi, ok := r.(*ssa.Phi); ok {
+							if phi.Block() == h {
+								builds = true
+							} else if loop[phi.Block()] {
+								follow(phi, d+1)
+							}
+						}
+						if st, ok := r.(*ssa.Store); ok {
+							if al, ok := st.Addr.(*ssa.Alloc); ok && !loop[al.Block()] {
+								builds = true
+							}
+						}
+					}
+				}
+				follow(call, 0)
+			}
+		}
+		if !builds {
+			continue
+		}
+		var brk []loopExit
+		for _, e := range bodyExits(h, loop) {
+			if endsInPanic(e.to) || returnAfter(e.to) != nil {
+				continue
+			}
+			brk = append(brk, e)
+		}
+		out = append(out, filterLoop{f, h, brk})
+	}
+	return out
+}
+
+func dumpFilterLoops(c *Ctx) {
+	for _, f := range c.P.Funcs {
+		if !c.P.InRepo(f) {
+			continue
+		}
+		for _, fl := range filterLoops(f) {
+			fmt.Printf("%d\t%s\t%s\n", len(fl.breaks), c.P.Pos(firstPos(fl.h)), FuncName(f))
+		}
+	}
+}
+
+func init() {
+	register(&Rule{
+		ID:    "C17.filterbreak",
+		Props: []string{"C17", "C20", "C15", "C03"},
+		Doc:   "a loop that walks a collection (a counting or range loop, i.e. one with a loop condition) and builds a list from it — appends an element, a transformed element, or skips it — is never left by a break: skipping one element is `continue`; a break drops every element after the first one skipped (Polygon.Simplify dropping all holes listed after a collapsed one). Loops without a condition (`for { … }` reading tokens or walking edges until a terminator) are not in scope",
+		Floor: 15,
+		Run: func(c *Ctx) {
+			for _, f := range c.P.Funcs {
+				if pk := pkgOf(f); pk != "geom" && pk != "rtree" && pk != "carto" {
+					continue
+				}
+				counted := map[*ssa.BasicBlock]bool{}
+				for _, cl := range countingLoops(f) {
+					// the counter is what the loop condition tests (not `for i := 0; true; i++`)
+					ifi, ok := cl.h.Instrs[len(cl.h.Instrs)-1].(*ssa.If)
+					if !ok {
+						continue
+					}
+					bo, ok := ifi.Cond.(*ssa.BinOp)
+					if !ok {
+						continue
+					}
+					for _, opnd := range []ssa.Value{bo.X, bo.Y} {
+						if cl.cell != nil {
+							counted[cl.h] = true
+						}
+						if opnd == ssa.Value(cl.phi) {
+							counted[cl.h] = true
+						}
+						if add, ok := opnd.(*ssa.BinOp); ok && add.Op == token.ADD && add.X == ssa.Value(cl.phi) {
+							counted[cl.h] = true
+						}
+					}
+				}
+				for _, fl := range filterLoops(f) {
+					if !counted[fl.h] {
+						continue // `for { … }` until a terminator is read: not a walk over a collection
+					}
+					construct := fmt.Sprintf("list-building loop #%d", loopOrdinal(f, fl.h))
+					if len(fl.breaks) == 0 {
+						c.OK(firstPos(fl.h), FuncName(f), construct, "left only when the collection is exhausted (or by a return)")
+						continue
+					}
+					c.Bad(firstPos(fl.breaks[0].from), FuncName(f), construct, "the loop that builds a list from the members of a collection is left by a break at "+c.P.Pos(firstPos(fl.breaks[0].from))+": the members after that point are silently dropped from the result (to leave one member out, continue)")
+				}
+			}
+		},
+	})
+}
+
+// ---------------------------------------------------------------------------
+// C06.parsed: no success without having parsed
+// ---------------------------------------------------------------------------
+
+func init() {
+	register(&Rule{
+		ID:    "C06.parsed",
+		Props: []string{"C06", "C08"},
+		Doc:   "a JSON decoding step cannot succeed without decoding: in every geom function that hands one of its own parameters (raw JSON bytes) to encoding/json.Unmarshal and returns an error, each return whose error can be nil is dominated by such a call (a `len(raw) == 0 -> return nil` shortcut in front of the call turns a missing \"coordinates\" member — which json.Unmarshal rejects as unexpected end of input — into an empty geometry)",
+		Floor: 2,
+		Run: func(c *Ctx) {
+			for _, f := range c.P.Funcs {
+				if pkgOf(f) != "geom" || len(f.Blocks) == 0 {
+					continue
+				}
+				res := f.Signature.Results()
+				if res.Len() == 0 || !isErrorType(res.At(res.Len()-1).Type()) {
+					continue
+				}
+				// the calls that decode the function's own input (a []byte / RawMessage parameter)
+				var calls []ssa.CallInstruction
+				for _, call := range callsTo(f, "encoding/json.Unmarshal") {
+					a := resolveCell(stripConv(call.Common().Args[0]))
+					if ch, ok := a.(*ssa.ChangeType); ok {
+						a = resolveCell(ch.X)
+					}
+					if p, ok := a.(*ssa.Parameter); ok && p.Parent() == f {
+						calls = append(calls, call)
+					}
+				}
+				if len(calls) == 0 {
+					continue
+				}
+				fn := FuncName(f)
+				k := 0
+				for _, r := range returnsOf(f) {
+					if provablyNonNilErr(r) {
+						continue
+					}
+					k++
+					dominated := false
+					for _, call := range calls {
+						if call.Block().Dominates(r.Block()) {
+							dominated = true
+						}
+					}
+					construct := fmt.Sprintf("return #%d that can succeed", k)
+					c.Check(dominated, instrPos(r), fn, construct, "behind a json.Unmarshal call", "this return can report success on a path that never called json.Unmarshal: whatever the raw JSON holds (nothing at all, for a missing member) is accepted without being decoded")
+				}
+			}
+		},
+	})
+}
+
+// ---------------------------------------------------------------------------
+// C10.consumed: the slice handed to BulkLoad is gone
+// ---------------------------------------------------------------------------
+
+func init() {
+	register(&Rule{
+		ID:    "C10.consumed",
+		Props: []string{"C10", "C03", "C11"},
+		Doc:   "rtree.BulkLoad takes ownership of its items slice and permutes it while building the tree (the reviewed exception of C10.write): after the call no caller reads an element of that slice again — not by index, by slicing, by range, by passing it on, or from a closure — because position i no longer holds item i (Polygon.Validate searching with items[i].Box after the load compares ring i against another ring's envelope as soon as there are 5 rings)",
+		Floor: 5,
+		Run: func(c *Ctx) {
+			for _, f := range c.P.Funcs {
+				if !c.P.InRepo(f) || pkgOf(f) == "rtree" {
+					continue
+				}
+				for _, call := range callsTo(f, "rtree.BulkLoad") {
+					arg := call.Common().Args[0]
+					fn := FuncName(f)
+					// the slice value and, when it lives in a variable, every load of that variable
+					alias := map[ssa.Value]bool{arg: true}
+					var cell *ssa.Alloc
+					if ld, ok := arg.(*ssa.UnOp); ok && ld.Op == token.MUL {
+						if al, ok := ld.X.(*ssa.Alloc); ok {
+							cell = al
+						}
+					}
+					bad := ""
+					after := func(in ssa.Instruction) bool {
+						if in.Parent() != f {
+							return true // a closure: runs whenever it is called, e.g. from the search that follows
+						}
+						if in.Block() == call.Block() {
+							for _, x := range in.Block().Instrs {
+								if x == in {
+									return false
+								}
+								if x == call.(ssa.Instruction) {
+									return true
+								}
+							}
+						}
+						if in.Block() == call.Block() {
+							return false
+						}
+						if in.Block().Dominates(call.Block()) {
+							return false // on every path before the call (a later iteration of an enclosing loop builds a new slice first)
+						}
+						return reaches(call.Block(), in.Block(), nil)
+					}
+					reads := func(v ssa.Value) {
+						if v.Referrers() == nil {
+							return
+						}
+						for _, r := range *v.Referrers() {
+							if r == call.(ssa.Instruction) {
+								continue
+							}
+							switch x := r.(type) {
+							case *ssa.DebugRef:
+								continue
+							case *ssa.Call:
+								if b, ok := x.Call.Value.(*ssa.Builtin); ok && (b.Name() == "len" || b.Name() == "cap") {
+									continue
+								}
+							}
+							if after(r) {
+								bad = "the slice is used again at " + c.P.Pos(instrPos(r))
+							}
+						}
+					}
+					reads(arg)
+					if cell != nil {
+						for _, r := range *cell.Referrers() {
+							switch x := r.(type) {
+							case *ssa.UnOp:
+								if x != arg {
+									alias[x] = true
+									reads(x)
+								}
+							case *ssa.MakeClosure:
+								bad = "the variable holding the slice is captured by a closure at " + c.P.Pos(x.Pos())
+							}
+						}
+					}
+					c.Check(bad == "", call.Pos(), fn, "items slice after BulkLoad", "not read again", "rtree.BulkLoad permutes the slice it is given, and "+bad+": element i is no longer item i")
+				}
+			}
+		},
+	})
+}
+
+// ---------------------------------------------------------------------------
+// C13.bothordinates
+// ---------------------------------------------------------------------------
+
+// xyFieldOf: v reads field X or Y of an XY-typed value: returns the base and the field name.
+func xyFieldOf(v ssa.Value) (ssa.Value, string, bool) {
+	v = stripConv(v)
+	switch x := v.(type) {
+	case *ssa.Field:
+		if namedName(x.X.Type()) == "XY" {
+			return x.X, fieldName(x.X.Type(), x.Field), true
+		}
+	case *ssa.UnOp:
+		if x.Op == token.MUL {
+			if fa, ok := x.X.(*ssa.FieldAddr); ok && namedName(deref(fa.X.Type())) == "XY" {
+				return fa.X, fieldName(fa.X.Type(), fa.Field), true
+			}
+		}
+	}
+	return nil, "", false
+}
+
+type ordCompare struct {
+	bo   *ssa.BinOp
+	a, b ssa.Value
+	fld  string
+}
+
+func ordinateCompares(f *ssa.Function) []ordCompare {
+	var out []ordCompare
+	eachInstr(f, func(in ssa.Instruction) {
+		bo, ok := in.(*ssa.BinOp)
+		if !ok {
+			return
+		}
+		switch bo.Op {
+		case token.EQL, token.NEQ, token.LSS, token.LEQ, token.GTR, token.GEQ:
+		default:
+			return
+		}
+		a, fa, ok1 := xyFieldOf(bo.X)
+		b, fb, ok2 := xyFieldOf(bo.Y)
+		if ok1 && ok2 && fa == fb && a != b {
+			out = append(out, ordCompare{bo, a, b, fa})
+		}
+	})
+	return out
+}
+
+func init() {
+	register(&Rule{
+		ID:    "C13.bothordinates",
+		Props: []string{"C13", "C03", "C20"},
+		Doc:   "two points are told apart on both ordinates: wherever a function compares the X ordinates of two XY values for equality or inequality (p.X == q.X, p.X != q.X), the same function also compares the Y ordinates of the same two values (or the two values as wholes) — a distinctness or tie test on X alone treats every vertical arrangement as one point (`hasAtLeast2DistinctPointsInXYs` comparing pt.X != first.X makes the hull of a vertical line a single point)",
+		Floor: 2,
+		Run: func(c *Ctx) {
+			for _, f := range c.P.Funcs {
+				if !c.P.InRepo(f) || len(f.Blocks) == 0 {
+					continue
+				}
+				cmps := ordinateCompares(f)
+				fn := FuncName(f)
+				k := 0
+				for _, oc := range cmps {
+					if oc.fld != "X" || (oc.bo.Op != token.EQL && oc.bo.Op != token.NEQ) {
+						continue
+					}
+					k++
+					same := func(p, q ssa.Value) bool {
+						if p == q || sameValue(p, q) || sameAddr(p, q, 0) || sameValueDeep(p, q, 0) {
+							return true
+						}
+						// the same expression evaluated twice (ps[i] in `ps[i].X` and in `ps[i].Y`)
+						ps, ok1 := accessPath(p)
+						qs, ok2 := accessPath(q)
+						return ok1 && ok2 && ps == qs
+					}
+					hasY := false
+					for _, o := range cmps {
+						if o.fld == "Y" && ((same(o.a, oc.a) && same(o.b, oc.b)) || (same(o.a, oc.b) && same(o.b, oc.a))) {
+							hasY = true
+						}
+					}
+					construct := fmt.Sprintf("X ordinates compared with %s #%d", oc.bo.Op, k)
+					c.Check(hasY, oc.bo.Pos(), fn, construct, "the Y ordinates of the same two points are compared in this function as well", "the X ordinates of two points are compared for (in)equality but their Y ordinates never are: two points on the same vertical line are taken for the same point (or tie) here")
+				}
+			}
+		},
+	})
+}
+
+// ---------------------------------------------------------------------------
+// C15.noepsilon
+// ---------------------------------------------------------------------------
+
+func init() {
+	register(&Rule{
+		ID:    "C15.noepsilon",
+		Props: []string{"C15", "C03", "C09", "C13"},
+		Doc:   "geom and rtree decide with exact comparisons: no floating-point value is compared (<, <=, >, >=) with a built-in tolerance, i.e. a non-zero constant of magnitude below 1e-3 (tolerances only come from the caller, e.g. ToleranceXY) — merging scan-line intercepts that are closer than 1e-9 makes a thin polygon's two crossings one, and the parity argument of PointOnSurface then picks a boundary point or nothing",
+		Floor: 0,
+		Run: func(c *Ctx) {
+			n := 0
+			for _, f := range c.P.Funcs {
+				if pk := pkgOf(f); pk != "geom" && pk != "rtree" {
+					continue
+				}
+				eachInstr(f, func(in ssa.Instruction) {
+					bo, ok := in.(*ssa.BinOp)
+					if !ok || !isFloat(bo.X.Type()) {
+						return
+					}
+					switch bo.Op {
+					case token.LSS, token.LEQ, token.GTR, token.GEQ:
+					default:
+						return
+					}
+					for _, opnd := range []ssa.Value{bo.X, bo.Y} {
+						kc, ok := stripConv(opnd).(*ssa.Const)
+						if !ok {
+							continue
+						}
+						if k, ok := constantFloat(kc); ok && k != 0 && k > -1e-3 && k < 1e-3 {
+							n++
+							c.Bad(bo.Pos(), FuncName(f), fmt.Sprintf("comparison with the tolerance %v", k), "a value is compared with a built-in tolerance: the geometry code is exact everywhere else, so two distinct values closer than this are treated as one here only (and results change with the scale of the input)")
+						}
+					}
+				})
+			}
+			c.Triv(token.NoPos, "-", "summary", fmt.Sprintf("%d comparisons with a built-in tolerance in geom and rtree", n))
+		},
+	})
+}
+
+// ---------------------------------------------------------------------------
+// C07.formed: a TWKB is only assembled from a writer whose headers were written
+// ---------------------------------------------------------------------------
+
+func init() {
+	register(&Rule{
+		ID:    "C07.formed",
+		Props: []string{"C07", "C08"},
+		Doc:   "every TWKB that is assembled is complete: each call of twkbWriter.formTWKB is dominated by a call, on the same writer, of writeGeometry or of writeAdditionalHeaders (directly or through a helper introduced after the baseline that calls one of them on its receiver) — the step that emits the size and bounding-box headers the metadata byte has already announced. A GeometryCollection member written with the bare type dispatch sets the has-size bit but never writes the size, and the decoder then reads coordinates as a length",
+		Floor: 2,
+		Run: func(c *Ctx) {
+			writesHeaders := func(cal *ssa.Function) bool {
+				if cal == nil {
+					return false
+				}
+				switch FuncName(cal) {
+				case "geom.(*twkbWriter).writeGeometry", "geom.(*twkbWriter).writeAdditionalHeaders":
+					return true
+				}
+				if isNewHelper(cal) && len(cal.Blocks) > 0 && len(cal.Params) > 0 {
+					found := false
+					eachCall(cal, func(ci ssa.CallInstruction) {
+						if g := staticCallee(ci); g != nil && len(ci.Common().Args) > 0 && ci.Common().Args[0] == ssa.Value(cal.Params[0]) {
+							switch FuncName(g) {
+							case "geom.(*twkbWriter).writeGeometry", "geom.(*twkbWriter).writeAdditionalHeaders":
+								found = true
+							}
+						}
+					})
+					return found
+				}
+				return false
+			}
+			for _, f := range c.P.Funcs {
+				if pkgOf(f) != "geom" {
+					continue
+				}
+				for _, form := range callsTo(f, "geom.(*twkbWriter).formTWKB") {
+					recv := form.Common().Args[0]
+					ok := false
+					eachCall(f, func(ci ssa.CallInstruction) {
+						if !writesHeaders(staticCallee(ci)) || len(ci.Common().Args) == 0 {
+							return
+						}
+						r := ci.Common().Args[0]
+						if (r == recv || sameValue(r, recv)) && ci.Block().Dominates(form.Block()) {
+							if ci.Block() != form.Block() || instrIndex(ci.(ssa.Instruction)) < instrIndex(form.(ssa.Instruction)) {
+								ok = true
+							}
+						}
+					})
+					c.Check(ok, form.Pos(), FuncName(f), "headers written before the TWKB is formed", "writeGeometry / writeAdditionalHeaders on the same writer dominates formTWKB", "formTWKB assembles the output of a writer on which neither writeGeometry nor writeAdditionalHeaders was called on every path before: the size / bounding-box headers announced in the metadata byte are missing from the encoding")
+				}
+			}
+		},
+	})
+}
+
+func instrIndex(in ssa.Instruction) int {
+	for i, x := range in.Block().Instrs {
+		if x == in {
+			return i
+		}
+	}
+	return -1
+}
+
+// ---------------------------------------------------------------------------
+// C15.ringsboundary
+// ---------------------------------------------------------------------------
+
+func init() {
+	register(&Rule{
+		ID:    "C15.ringsboundary",
+		Props: []string{"C15", "C20"},
+		Doc:   "the boundary of a MultiPolygon is exactly its rings: MultiPolygon.Boundary interpreted on two member polygons with 0, 1 or 2 rings each (an EMPTY member has none) hands NewMultiLineString one line per ring, in member and ring order, and nothing else — in particular no placeholder for an empty member (ExteriorRing() of an empty polygon is an empty LineString, not a ring)",
+		Floor: 1,
+		Run:   runC15RingsBoundary,
+	})
+}
+
+func runC15RingsBoundary(c *Ctx) {
+	f := c.P.Func("geom.(MultiPolygon).Boundary")
+	if f == nil {
+		c.Errorf("anchor geom.(MultiPolygon).Boundary does not resolve")
+		return
+	}
+	inl := func(g *ssa.Function) bool {
+		switch FuncName(g) {
+		case "geom.(Polygon).NumRings", "geom.(Polygon).ExteriorRing", "geom.(Polygon).NumInteriorRings", "geom.(Polygon).InteriorRingN", "geom.(Polygon).IsEmpty", "geom.maxInt",
+			"geom.(MultiPolygon).NumPolygons", "geom.(MultiPolygon).PolygonN":
+			return true
+		}
+		return false
+	}
+	problem, undec := "", ""
+	models := 0
+	for k0 := 0; k0 <= 2 && problem == "" && undec == ""; k0++ {
+		for k1 := 0; k1 <= 2 && problem == "" && undec == ""; k1++ {
+			models++
+			m := &Model{Num: map[string]float64{}, Bool: map[string]bool{}, Missing: map[string]bool{}}
+			it := &k4interp{p: c.P, m: m, mem: map[string]k4val{}, inline: inl}
+			it.mem["$0.polys"] = k4val{kind: 8, s: "POLYS", ln: 2, cp: 2}
+			it.mem["POLYS[0].rings"] = k4val{kind: 8, s: "R0", ln: k0, cp: k0}
+			it.mem["POLYS[1].rings"] = k4val{kind: 8, s: "R1", ln: k1, cp: k1}
+			var want []string
+			for j := 0; j < k0; j++ {
+				it.mem[fmt.Sprintf("R0[%d]", j)] = k4val{kind: 3, s: fmt.Sprintf("R0[%d]", j)}
+				want = append(want, fmt.Sprintf("R0[%d]", j))
+			}
+			for j := 0; j < k1; j++ {
+				it.mem[fmt.Sprintf("R1[%d]", j)] = k4val{kind: 3, s: fmt.Sprintf("R1[%d]", j)}
+				want = append(want, fmt.Sprintf("R1[%d]", j))
+			}
+			var got []string
+			built := 0
+			it.onOpaque = func(name string, args []k4val) {
+				if strings.HasSuffix(name, "NewMultiLineString") && len(args) == 1 {
+					built++
+					got = nil
+					if args[0].kind == 8 {
+						for i := 0; i < args[0].ln; i++ {
+							el, ok := it.mem[fmt.Sprintf("%s[%d]", args[0].s, args[0].off+i)]
+							if !ok {
+								el = k4val{kind: 3, s: fmt.Sprintf("%s[%d]", args[0].s, args[0].off+i)}
+							}
+							got = append(got, el.String())
+						}
+					}
+				}
+			}
+			it.answer = func(key string, isBool bool) (k4val, bool) {
+				if !isBool && strings.Contains(key, ".ctype") {
+					return k4val{kind: 2, f: 0}, true
+				}
+				return k4val{}, false
+			}
+			if _, err := it.call(f, []k4val{{kind: 3, s: "$0"}}, nil); err != nil {
+				undec = fmt.Sprintf("%v %s", err, trunc(missingList(m)))
+				break
+			}
+			okAll := built == 1 && len(got) == len(want)
+			for i := 0; okAll && i < len(want); i++ {
+				if !strings.Contains(got[i], want[i]) {
+					okAll = false
+				}
+			}
+			if !okAll {
+				problem = fmt.Sprintf("for member polygons with %d and %d rings the boundary is built from %v; the rings are %v", k0, k1, got, want)
+			}
+		}
+	}
+	reportK4(c, f, "lines of the boundary", undec, problem, fmt.Sprintf("one line per ring, in order, for 0..2 rings per member (%d models)", models))
+}
+
+// ---------------------------------------------------------------------------
+// C20.capacity
+// ---------------------------------------------------------------------------
+
+func init() {
+	register(&Rule{
+		ID:    "C20.capacity",
+		Props: []string{"C20", "C16"},
+		Doc:   "an exact-capacity assertion counts points, not members: in every geom function that calls Sequence.assertNoUnusedCapacity (which panics when capacity and length differ), the capacity of each []float64 it allocates is not computed from the NUMBER OF MEMBER GEOMETRIES (len of a slice of Point, LineString, Polygon or Geometry, or a Num…() accessor of a collection) — an empty member contributes no coordinates, so such a capacity is too large for every collection with an empty member and the assertion fires; capacities are sums of Sequence lengths",
+		Floor: 3,
+		Run: func(c *Ctx) {
+			isGeomType := func(t types.Type) bool {
+				switch namedName(t) {
+				case "Point", "LineString", "Polygon", "MultiPoint", "MultiLineString", "MultiPolygon", "GeometryCollection", "Geometry":
+					return true
+				}
+				return false
+			}
+			for _, f := range c.P.Funcs {
+				if pkgOf(f) != "geom" || len(f.Blocks) == 0 {
+					continue
+				}
+				if len(callsTo(f, "geom.(Sequence).assertNoUnusedCapacity")) == 0 {
+					continue
+				}
+				fn := FuncName(f)
+				k := 0
+				eachInstr(f, func(in ssa.Instruction) {
+					ms, ok := in.(*ssa.MakeSlice)
+					if !ok {
+						return
+					}
+					if st, ok := ms.Type().Underlying().(*types.Slice); !ok || !isFloat(st.Elem()) {
+						return
+					}
+					k++
+					bad := ""
+					seen := map[ssa.Value]bool{}
+					var walk func(v ssa.Value, d int)
+					walk = func(v ssa.Value, d int) {
+						v = stripConv(v)
+						if d > 8 || v == nil || seen[v] {
+							return
+						}
+						seen[v] = true
+						switch x := v.(type) {
+						case *ssa.BinOp:
+							walk(x.X, d+1)
+							walk(x.Y, d+1)
+						case *ssa.Phi:
+							for _, e := range x.Edges {
+								walk(e, d+1)
+							}
+						case *ssa.UnOp:
+							if x.Op == token.MUL {
+								if al, ok := x.X.(*ssa.Alloc); ok {
+									for _, r := range *al.Referrers() {
+										if st, ok := r.(*ssa.Store); ok && st.Addr == ssa.Value(al) {
+											walk(st.Val, d+1)
+										}
+									}
+								}
+							}
+						case *ssa.Call:
+							if b, ok := x.Call.Value.(*ssa.Builtin); ok && b.Name() == "len" {
+								if st, ok := x.Call.Args[0].Type().Underlying().(*types.Slice); ok && isGeomType(st.Elem()) {
+									as, _ := accessPath(x.Call.Args[0])
+									bad = "len(" + trunc(as) + "), the number of member geometries"
+								}
+								return
+							}
+							if cal := staticCallee(x); cal != nil && cal.Signature.Recv() != nil && strings.HasPrefix(cal.Name(), "Num") && cal.Name() != "NumRings" && cal.Name() != "NumInteriorRings" && isGeomType(cal.Signature.Recv().Type()) {
+								bad = FuncName(cal) + "(), the number of member geometries"
+							}
+						}
+					}
+					walk(ms.Cap, 0)
+					c.Check(bad == "", ms.Pos(), fn, fmt.Sprintf("capacity of coordinate buffer #%d", k), "computed from sequence lengths", "the function asserts that its coordinate buffer is filled exactly, but sizes it from "+bad+": an empty member adds nothing to the buffer, so the assertion panics for every collection that has one")
+				})
+			}
+		},
+	})
+}
+
+// ---------------------------------------------------------------------------
+// C16.xypairs
+// ---------------------------------------------------------------------------
+
+// xyPairAppend: call is append(list, p.X, p.Y) for one XY value p (exactly two
+// values, the X and the Y field of the same XY).
+func xyPairAppend(call *ssa.Call) bool {
+	if len(call.Call.Args) != 2 {
+		return false
+	}
+	sl, ok := call.Call.Args[1].(*ssa.Slice)
+	if !ok {
+		return false
+	}
+	al, ok := sl.X.(*ssa.Alloc)
+	if !ok {
+		return false
+	}
+	at, ok := deref(al.Type()).Underlying().(*types.Array)
+	if !ok || at.Len() != 2 {
+		return false
+	}
+	var flds [2]string
+	var bases [2]ssa.Value
+	for _, r := range *al.Referrers() {
+		ia, ok := r.(*ssa.IndexAddr)
+		if !ok {
+			continue
+		}
+		i, ok := constInt(ia.Index)
+		if !ok || i < 0 || i > 1 {
+			return false
+		}
+		for _, rr := range *ia.Referrers() {
+			if st, ok := rr.(*ssa.Store); ok && st.Addr == ssa.Value(ia) {
+				b, fl, ok := xyFieldOf(st.Val)
+				if !ok {
+					return false
+				}
+				flds[i], bases[i] = fl, b
+			}
+		}
+	}
+	if flds[0] != "X" || flds[1] != "Y" {
+		return false
+	}
+	pa, _ := accessPath(bases[0])
+	pb, _ := accessPath(bases[1])
+	return bases[0] == bases[1] || sameAddr(bases[0], bases[1], 0) || sameValue(bases[0], bases[1]) || pa == pb
+}
+
+// builtFromXYPairs: the float slice v is a local list that only ever grows by xyPairAppend.
+func builtFromXYPairs(v ssa.Value, seen map[ssa.Value]bool, d int) (pairs int, ok bool) {
+	if d > 10 {
+		return 0, false
+	}
+	if seen[v] {
+		return 0, true
+	}
+	seen[v] = true
+	switch x := v.(type) {
+	case *ssa.Const:
+		return 0, x.Value == nil
+	case *ssa.MakeSlice:
+		if k, isC := constInt(x.Len); isC && k == 0 {
+			return 0, true
+		}
+		return 0, false
+	case *ssa.Phi:
+		n := 0
+		for _, e := range x.Edges {
+			k, ok := builtFromXYPairs(e, seen, d+1)
+			if !ok {
+				return 0, false
+			}
+			n += k
+		}
+		return n, true
+	case *ssa.Call:
+		if b, isB := x.Call.Value.(*ssa.Builtin); isB && b.Name() == "append" {
+			if !xyPairAppend(x) {
+				return 0, false
+			}
+			k, ok := builtFromXYPairs(x.Call.Args[0], seen, d+1)
+			return k + 1, ok
+		}
+	case *ssa.UnOp:
+		if x.Op == token.MUL {
+			if al, isAl := x.X.(*ssa.Alloc); isAl {
+				n, stores := 0, 0
+				for _, r := range *al.Referrers() {
+					if st, isSt := r.(*ssa.Store); isSt && st.Addr == ssa.Value(al) {
+						stores++
+						k, ok := builtFromXYPairs(st.Val, seen, d+1)
+						if !ok {
+							return 0, false
+						}
+						n += k
+					}
+				}
+				return n, stores > 0
+			}
+		}
+	}
+	return 0, false
+}
+
+func init() {
+	register(&Rule{
+		ID:    "C16.xypairs",
+		Props: []string{"C16", "C01"},
+		Doc:   "a coordinate list assembled from XY values is an XY sequence: wherever a float slice that a function builds solely by `append(list, p.X, p.Y)` (two ordinates per point) is made into a Sequence, the coordinates type given to NewSequence is the constant DimXY — typing it with a geometry's own coordinates type makes a Z/M input read the pairs with stride 3 or 4 (the re-noded lines of the overlay)",
+		Floor: 1,
+		Run: func(c *Ctx) {
+			for _, f := range c.P.Funcs {
+				if pkgOf(f) != "geom" || len(f.Blocks) == 0 {
+					continue
+				}
+				for _, call := range callsTo(f, "geom.NewSequence") {
+					args := call.Common().Args
+					pairs, ok := builtFromXYPairs(args[0], map[ssa.Value]bool{}, 0)
+					if !ok || pairs == 0 {
+						continue
+					}
+					k, isC := constInt(args[1])
+					as, _ := accessPath(args[1])
+					c.Check(isC && k == 0, call.Pos(), FuncName(f), "coordinates type of a list of X,Y pairs", "DimXY", "the float list holds two ordinates per point (it is only ever extended by append(list, p.X, p.Y)) but the Sequence is typed "+trunc(as)+": for a Z or M type the constructor panics on the length or reads the pairs with the wrong stride")
+				}
+			}
+		},
+	})
+}
+
+// ---------------------------------------------------------------------------
+// C05.sticky: a per-member decision is not carried to the next member
+// ---------------------------------------------------------------------------
+
+func init() {
+	register(&Rule{
+		ID:    "C05.sticky",
+		Props: []string{"C05", "C08", "C20"},
+		Doc:   "a per-element decision does not leak into the next element: when a loop hands the address of a Boolean variable declared OUTSIDE the loop to a function it calls for each element, and that function both branches on the flag and can only ever set it (stores the constant true, never false), the loop itself resets the flag in every iteration — otherwise what was decided for one element (this MULTIPOINT member is written with parentheses) is silently applied to all later ones. Flags that are only read after the loop (accumulators such as `found`) are not concerned",
+		Floor: 0,
+		Run: func(c *Ctx) {
+			n := 0
+			for _, f := range c.P.Funcs {
+				if !c.P.InRepo(f) || len(f.Blocks) == 0 {
+					continue
+				}
+				for _, h := range f.Blocks {
+					loop := naturalLoop(h)
+					if loop == nil {
+						continue
+					}
+					for b := range loop {
+						for _, in := range b.Instrs {
+							call, ok := in.(*ssa.Call)
+							if !ok {
+								continue
+							}
+							cal := staticCallee(call)
+							if cal == nil || len(cal.Blocks) == 0 {
+								continue
+							}
+							for ai, a := range call.Call.Args {
+								al, ok := a.(*ssa.Alloc)
+								if !ok || loop[al.Block()] || !isBoolT(deref(al.Type())) || ai >= len(cal.Params) {
+									continue
+								}
+								par := cal.Params[ai]
+								setsTrue, setsOther, branches := false, false, false
+								for _, r := range *par.Referrers() {
+									switch x := r.(type) {
+									case *ssa.Store:
+										if x.Addr == ssa.Value(par) {
+											if bv, isC := constBool(x.Val); isC && bv {
+												setsTrue = true
+											} else {
+												setsOther = true
+											}
+										}
+									case *ssa.UnOp:
+										if x.Op == token.MUL {
+											for _, rr := range *x.Referrers() {
+												if _, isIf := rr.(*ssa.If); isIf {
+													branches = true
+												}
+											}
+										}
+									default:
+										setsOther = true // passed on: unknown
+									}
+								}
+								if !setsTrue || setsOther || !branches {
+									continue
+								}
+								n++
+								reset := false
+								for _, r := range *al.Referrers() {
+									if st, ok := r.(*ssa.Store); ok && st.Addr == ssa.Value(al) && loop[st.Block()] {
+										if bv, isC := constBool(st.Val); isC && !bv {
+											reset = true
+										}
+									}
+								}
+								c.Check(reset, call.Pos(), FuncName(f), "flag "+al.Comment+" handed to "+FuncName(cal)+" for each element", "reset to false in every iteration", FuncName(cal)+" branches on the flag and can only set it to true, the variable lives outside the loop and the loop never resets it: once one element has set it, every later element is treated the same way")
+							}
+						}
+					}
+				}
+			}
+			c.Triv(token.NoPos, "-", "summary", fmt.Sprintf("%d per-element flags passed by address from a loop", n))
+		},
+	})
+}
+
+// ---------------------------------------------------------------------------
+// C03.simpleboundary
+// ---------------------------------------------------------------------------
+
+func init() {
+	register(&Rule{
+		ID:    "C03.simpleboundary",
+		Props: []string{"C03", "C15"},
+		Doc:   "a MultiLineString is simple iff its members meet only at points on the BOUNDARY of both (OGC): MultiLineString.IsSimple — with its closures and the helpers introduced after the baseline that it calls — decides a tolerated meeting point from the boundaries of the two lines involved, i.e. it calls LineString.Boundary() (or IsClosed(), the only thing that distinguishes the boundary from the end points: a closed line has none) on two different lines. Testing `first or last point of the sequence` instead accepts a line ending on the start vertex of a ring, and the verdict then depends on which vertex the ring starts at",
+		Floor: 1,
+		Run: func(c *Ctx) {
+			f := c.P.Func("geom.(MultiLineString).IsSimple")
+			if f == nil {
+				c.Errorf("anchor geom.(MultiLineString).IsSimple does not resolve")
+				return
+			}
+			var recvs []ssa.Value
+			for _, g := range withNewHelpers(f) {
+				for _, h := range append([]*ssa.Function{g}, allAnon(g)...) {
+					eachCall(h, func(call ssa.CallInstruction) {
+						cal := staticCallee(call)
+						if cal == nil || cal.Signature.Recv() == nil || namedName(cal.Signature.Recv().Type()) != "LineString" {
+							return
+						}
+						if cal.Name() != "Boundary" && cal.Name() != "IsClosed" {
+							return
+						}
+						r := resolveCell(call.Common().Args[0])
+						for _, o := range recvs {
+							if o == r || sameValue(o, r) {
+								return
+							}
+						}
+						recvs = append(recvs, r)
+					})
+				}
+			}
+			c.Check(len(recvs) >= 2, f.Pos(), FuncName(f), "meeting points judged by the lines' boundaries", fmt.Sprintf("Boundary()/IsClosed() consulted on %d different lines", len(recvs)), fmt.Sprintf("IsSimple consults Boundary()/IsClosed() on %d line(s), it needs the boundary of both lines that meet: end points of a closed line are not boundary points, so a test on end points alone accepts a line that ends on a ring's start vertex", len(recvs)))
+		},
+	})
 }
